@@ -376,7 +376,117 @@ def gen(rng, tier, index):
                             "kind": rng.choice(["reset", "eof", "peer_reset"])}
         else:
             scn["reset"] = {"conn": rng.randrange(1, 3), "dir": "step", "at": rng.randrange(5, 400), "kind": rng.choice(["reset", "eof"])}
+    # Sampled extensions.  They are drawn after everything else, so the base scenario of a (seed, index) is the same
+    # with and without them, and a scenario that does not carry their keys runs exactly as before.
+    if rng.random() < P_EXPECT_REFUSE:
+        add_expect_refusal(rng, scn)
+    if rng.random() < P_HEADER_MIX:
+        add_header_mix(rng, scn)
     return scn
+
+
+# ---- extension 1: a route expect_handler that refuses (final response, no "100 Continue")
+P_EXPECT_REFUSE = 0.10   # applies to HTTP/1.1 sessions only (70 % of them): ~7 % of all scenarios
+REFUSE_STATUS = [403, 417]
+REFUSE_HOW = ["raise", "return", "write"]
+
+
+def add_expect_refusal(rng, scn):
+    """One exchange of the session (preferably not the last one) is sent with expect100=True and a body, and the
+    route's expect_handler answers it with a final 403/417 instead of '100 Continue'."""
+    if scn["version"] != "1.1":
+        return
+    exs = scn["exchanges"]
+    i = rng.randrange(len(exs) - 1) if len(exs) > 1 and rng.random() < 0.85 else len(exs) - 1
+    rq = exs[i]["req"]
+    if rq["method"].upper() == "HEAD":
+        rq["method"] = "POST"
+    if rq["body"]["kind"] == "none":
+        rq["body"] = {"kind": "bytes", "k": rng.randrange(251), "size": rng.choice([1, 17, 300, 2047, 2049])}
+        rq["json_api"] = False
+    if rq["chunked"] is False:
+        rq["chunked"] = None
+    rq["expect100"] = True
+    rq["expect_refuse"] = {"how": rng.choice(REFUSE_HOW), "status": rng.choice(REFUSE_STATUS),
+                           "close": rng.random() < 0.2}
+    if rng.random() < 0.5:
+        exs[i]["gap_ms"] = rng.choice([0, 0, 1, 5])
+
+
+def is_refused(scn, rq):
+    """the oracle's premise: this request carries 'Expect: 100-continue' on HTTP/1.1 and the route's expect_handler
+    is scripted to refuse it"""
+    return bool(rq.get("expect_refuse")) and bool(rq["expect100"]) and scn["version"] == "1.1"
+
+
+def refusal_body(i):
+    return f"refused {i} é".encode("utf-8")
+
+
+# ---- extension 2: ClientSession(headers=...) defaults x per-request headers, same names in different letter case
+P_HEADER_MIX = 0.08
+SESSION_HDR_POOL = [["X-Dup", "s-one"], ["x-dup", "s-two"], ["X-Sess", "s-sess"], ["x-a", "s-a"], ["X-MIXED", "s-mixed"],
+                    ["X-Sess", "s-sess2"], ["x-lower", "s-lower"], ["User-Agent", "c02-session/1.0"], ["X-Only-Session", "s"]]
+MIX_HDR_POOL = [["X-Dup", "r-one"], ["x-dup", "r-two"], ["X-DUP", "r-three"], ["x-sess", "r-sess"], ["X-SESS", "r-sess2"],
+                ["X-A", "r-a"], ["x-a", "r-a2"], ["x-mixed", "r-mixed"], ["X-Lower", "r-lower"], ["x-new", "r-new"],
+                ["X-New", "r-new2"]]
+SESSION_HDR_FORMS = ["list", "dict", "cimultidict"]
+REQ_HDR_FORMS = ["list", "list", "cimultidict", "multidict"]
+
+
+def add_header_mix(rng, scn):
+    pairs = [list(rng.choice(SESSION_HDR_POOL)) for _ in range(rng.choice([1, 2, 3, 4]))]
+    form = rng.choice(SESSION_HDR_FORMS)
+    seen = set()
+    # a dict cannot repeat a key; User-Agent is a singleton field (sending it twice is the caller's error)
+    pairs = [p for p in pairs if not ((form == "dict" or p[0] == "User-Agent") and (p[0] in seen or seen.add(p[0])))]
+    scn["session_headers"] = {"form": form, "pairs": pairs}
+    for ex in scn["exchanges"]:
+        if rng.random() < 0.75:
+            rq = ex["req"]
+            for _ in range(rng.choice([1, 2, 2, 3, 4])):
+                rq["headers"].insert(rng.randrange(len(rq["headers"]) + 1), list(rng.choice(MIX_HDR_POOL)))
+            rq["headers_form"] = rng.choice(REQ_HDR_FORMS)
+
+
+def expected_request_fields(scn, i, rq):
+    """-> (per-request pairs, session pairs, {lower name: [values]} the handler must see for the caller's names).
+    Documented/tested semantics of ClientSession(headers=) + request(headers=): field names are case-insensitive; a name
+    given per request replaces every session default of that name; several per-request values of one name are all
+    sent, in the order given; a default whose name is not given per request is sent as it is."""
+    req_pairs = [("X-Ex", str(i))] + [tuple(h) for h in rq["headers"]]
+    sess_pairs = [tuple(h) for h in (scn.get("session_headers") or {}).get("pairs", [])]
+    spec = hdr_groups(req_pairs)
+    for name, vals in hdr_groups(sess_pairs).items():
+        spec.setdefault(name, vals)
+    return req_pairs, sess_pairs, spec
+
+
+def header_merge_class(name, req_pairs, sess_pairs):
+    """which of the new header situations a (lower-case) field name is in; None = none of them"""
+    spellings = {n for n, _ in req_pairs if n.lower() == name}
+    in_sess = any(n.lower() == name for n, _ in sess_pairs)
+    if len(spellings) > 1:
+        return "request_names_differ_in_case"
+    if spellings and in_sess:
+        return "request_replaces_session_default"
+    if in_sess:
+        return "session_default_only"
+    return None
+
+
+def _is_subseq(a, b):
+    it = iter(b)
+    return all(x in it for x in a)
+
+
+def header_symptom(want, got):
+    got = got or []
+    if len(got) < len(want) and _is_subseq(got, want):
+        return "values_lost"
+    if len(got) > len(want) and _is_subseq(want, got):
+        return "values_added"
+    return "values_differ"
 
 
 # --------------------------------------------------------------------------- shrink
@@ -419,10 +529,26 @@ def shrink(scn):
         yield dict(scn, host=HOSTS[0])
     if scn["port"] != 80:
         yield dict(scn, port=80)
+    sh = scn.get("session_headers")
+    if sh:
+        yield {k: v for k, v in scn.items() if k != "session_headers"}
+        if sh["form"] != "list":
+            yield dict(scn, session_headers=dict(sh, form="list"))
+        if len(sh["pairs"]) > 1:
+            for j in range(len(sh["pairs"])):
+                yield dict(scn, session_headers=dict(sh, pairs=sh["pairs"][:j] + sh["pairs"][j + 1:]))
     for i, ex in enumerate(exs):
         if ex["gap_ms"]:
             yield _with_ex(scn, i, dict(ex, gap_ms=0))
         rq, rs = ex["req"], ex["resp"]
+        xr = rq.get("expect_refuse")
+        if xr:
+            yield _with_ex(scn, i, dict(ex, req={k: v for k, v in rq.items() if k != "expect_refuse"}))
+            for k, v in (("how", "raise"), ("status", 403), ("close", False)):
+                if xr[k] != v:
+                    yield _with_ex(scn, i, dict(ex, req=dict(rq, expect_refuse=dict(xr, **{k: v}))))
+        if rq.get("headers_form") not in (None, "list"):
+            yield _with_ex(scn, i, dict(ex, req={k: v for k, v in rq.items() if k != "headers_form"}))
         for k, v in _DEF_REQ.items():
             if rq[k] != v:
                 yield _with_ex(scn, i, dict(ex, req=dict(rq, **{k: v})))
@@ -432,7 +558,8 @@ def shrink(scn):
         if rq["url_mode"] != "build" or rq.get("segments") or rq.get("query"):
             yield _with_ex(scn, i, dict(ex, req=dict(rq, url_mode="build", segments=[], query=[])))
         if rq["body"]["kind"] != "none":
-            yield _with_ex(scn, i, dict(ex, req=dict(rq, body={"kind": "none", "k": 0}, chunked=None, compress=None,
+            yield _with_ex(scn, i, dict(ex, req=dict({k: v for k, v in rq.items() if k != "expect_refuse"},
+                                                    body={"kind": "none", "k": 0}, chunked=None, compress=None,
                                                     expect100=False, json_api=False)))
         for k, v in _DEF_RESP.items():
             if rs[k] != v:
@@ -676,6 +803,7 @@ def run(scn, ch, log=False):
         from aiohttp import web
         from aiohttp.http import SERVER_SOFTWARE
         from aiohttp.web_response import ContentCoding
+        from multidict import CIMultiDict, MultiDict
         from sim.net import SimResolver
         from yarl import URL
 
@@ -819,6 +947,58 @@ def run(scn, ch, log=False):
                 if n in conns:
                     conns[n]["finished"] += 1
 
+        async def expect_handler(request):
+            """Route-level Expect handler written after the example in docs/web_advanced.rst ("Expect Header"): return
+            for other versions, 417 for an unknown expectation, a final response (raised HTTPException or returned
+            StreamResponse) when the request is refused, else write '100 Continue' and return None."""
+            if request.version != aiohttp.HttpVersion11:
+                return None
+            if request.headers.get("Expect", "").lower() != "100-continue":
+                raise web.HTTPExpectationFailed(text="Unknown Expect")
+            xex = request.headers.get("X-Ex", "")
+            i = int(xex) if xex.isdigit() and int(xex) < len(exchanges) else None
+            xr = exchanges[i]["req"].get("expect_refuse") if i is not None else None
+            if not xr:
+                request.transport.write(b"HTTP/1.1 100 Continue\r\n\r\n")
+                return None
+            n = request.transport.get_extra_info("sim_conn") if request.transport is not None else None
+            rec = {"conn": n, "method": request.method, "raw_path": request.raw_path, "version": tuple(request.version),
+                   "headers": [(k.decode("utf-8", "surrogateescape"), v.decode("utf-8", "surrogateescape")) for k, v in request.raw_headers],
+                   "combined": [(k, v) for k, v in request.headers.items()], "ex": i, "body": None, "done": False,
+                   "path": None, "query": None, "cookies": dict(request.cookies), "step": loop.steps, "finished": False,
+                   "refused": True}
+            try:
+                rec["path"] = request.path
+                rec["query"] = list(request.query.items())
+            except ValueError as e:
+                rec["path_error"] = repr(e)
+            seen.append(rec)
+            if n in conns:
+                conns[n]["handled"].append(rec)
+            state["last_ex"] = i
+            loop.note("expect_refused", f"ex{i}:{xr['how']}:{xr['status']}")
+            try:
+                hdrs_ = {"X-Refused": str(i)}
+                text = refusal_body(i).decode("utf-8")
+                if xr["how"] == "raise":
+                    if xr["close"]:
+                        hdrs_["Connection"] = "close"
+                        rec["conn_hdr"] = "close"
+                    cls = web.HTTPForbidden if xr["status"] == 403 else web.HTTPExpectationFailed
+                    raise cls(text=text, headers=hdrs_)
+                resp = web.Response(status=xr["status"], text=text, headers=hdrs_)
+                if xr["close"]:
+                    resp.force_close()
+                rec["resp_obj"] = resp
+                if xr["how"] == "write":
+                    await resp.prepare(request)
+                    await resp.write_eof()
+                return resp
+            finally:
+                rec["finished"] = True
+                if n in conns:
+                    conns[n]["finished"] += 1
+
         async def handle(request, rec):
             xex = request.headers.get("X-Ex", "")
             if not xex.isdigit() or int(xex) >= len(exchanges):
@@ -922,7 +1102,10 @@ def run(scn, ch, log=False):
 
         async def start_server():
             app = web.Application(client_max_size=8 * 1024 * 1024)
-            app.router.add_route("*", "/{tail:.*}", handler)
+            if any(ex["req"].get("expect_refuse") for ex in exchanges):
+                app.router.add_route("*", "/{tail:.*}", handler, expect_handler=expect_handler)
+            else:
+                app.router.add_route("*", "/{tail:.*}", handler)
             skw = scn["server"]
             runner = web.AppRunner(app, access_log=None, logger=SrvLog(), shutdown_timeout=1.0, keepalive_timeout=skw["keepalive_timeout"],
                                    read_bufsize=skw["read_bufsize"], tcp_keepalive=skw["tcp_keepalive"])
@@ -992,9 +1175,14 @@ def run(scn, ch, log=False):
                                              **({} if ckw["force_close"] else {"keepalive_timeout": ckw["ka"]}))
             jar = aiohttp.DummyCookieJar() if ckw["dummy_jar"] else aiohttp.CookieJar(unsafe=True)
             ver = aiohttp.HttpVersion10 if scn["version"] == "1.0" else aiohttp.HttpVersion11
+            sess_kw = {}
+            sh = scn.get("session_headers")
+            if sh:
+                sp = [tuple(h) for h in sh["pairs"]]
+                sess_kw["headers"] = dict(sp) if sh["form"] == "dict" else (CIMultiDict(sp) if sh["form"] == "cimultidict" else sp)
             async with aiohttp.ClientSession(connector=connector, version=ver, read_bufsize=ckw["read_bufsize"],
                                              cookie_jar=jar, auto_decompress=ckw["auto_decompress"],
-                                             timeout=aiohttp.ClientTimeout(total=None)) as session:
+                                             timeout=aiohttp.ClientTimeout(total=None), **sess_kw) as session:
                 for i, ex in enumerate(exchanges):
                     rq = ex["req"]
                     lit, _, _ = build_target(rq)
@@ -1008,6 +1196,10 @@ def run(scn, ch, log=False):
                         if rq["fragment"]:
                             url = url.with_fragment(rq["fragment"])
                     kw = {"headers": [("X-Ex", str(i))] + [tuple(h) for h in rq["headers"]], "allow_redirects": False}
+                    if rq.get("headers_form") == "cimultidict":
+                        kw["headers"] = CIMultiDict(kw["headers"])
+                    elif rq.get("headers_form") == "multidict":
+                        kw["headers"] = MultiDict(kw["headers"])
                     if rq["params"] is not None:
                         kw["params"] = [tuple(x) for x in rq["params"]]
                     if rq["cookies"] is not None:
@@ -1107,6 +1299,7 @@ def run(scn, ch, log=False):
             poison["from"] = min(poison["from"], i_)
 
         head_body_dropped = set()
+        reuse_after_refusal = set()  # refused exchanges after which the client went on using the connection
         all_segs = []
         for n, chunks in sorted(c_stream.items()):
             cur = None
@@ -1115,7 +1308,10 @@ def run(scn, ch, log=False):
                 he = data.find(b"\r\n\r\n")
                 mx = _XEX.search(data, 0, he + 4) if m is not None and he >= 0 else None
                 if mx is not None:
-                    cur = {"head": data[:he + 4], "ex": int(mx.group(1)), "body": bytearray(data[he + 4:])}
+                    cur = {"head": data[:he + 4], "ex": int(mx.group(1)), "body": bytearray(data[he + 4:]), "conn": n,
+                           "next": None}
+                    if all_segs and all_segs[-1]["conn"] == n:
+                        all_segs[-1]["next"] = cur
                     all_segs.append(cur)
                 elif cur is not None:
                     cur["body"] += data
@@ -1123,7 +1319,7 @@ def run(scn, ch, log=False):
         for sg in all_segs:
             last_seg[sg["ex"]] = sg  # an idempotent request may be written twice (retry after a lost connection)
         for sg in sorted(all_segs, key=lambda g: g["ex"]):
-            if sg["ex"] > poison["from"]:
+            if sg["ex"] > poison["from"] or sg["ex"] >= poison.get("incl", len(exchanges)):
                 continue  # follows a known-defect trigger: its fate proves nothing
             rq = exchanges[sg["ex"]]["req"]
             lines = sg["head"].split(b"\r\n")[1:]
@@ -1137,8 +1333,46 @@ def run(scn, ch, log=False):
                 ck = _req_class(rq)
             declared = hd.get("content-length", [""])[0]
             nbody = len(sg["body"])
+            # An expectation that was refused: the client may leave the body unsent (RFC 9110 10.1.1), but then the
+            # message it started is incomplete and the connection cannot carry another request (RFC 9112 6.3, 9.3: the
+            # server - here lingering - takes whatever comes next as the announced body).
+            refused_sg = is_refused(scn, rq) and any(r.get("refused") and r["ex"] == sg["ex"] and r["conn"] == sg["conn"] for r in seen)
+            if refused_sg:
+                if "transfer-encoding" in hd:
+                    unsent, fr_ = not bytes(sg["body"]).endswith(b"0\r\n\r\n"), "chunked"
+                else:
+                    unsent, fr_ = declared.isdigit() and nbody < int(declared), "content_length"
+                sg["refused_unsent"] = bool(unsent)
+                nx = sg["next"]
+                if unsent and nx is not None:
+                    # (holds with injected faults too: no fault makes a client continue on a connection in this state)
+                    j = nx["ex"]
+                    rj = results[j] if j < len(results) else None
+                    hj = [r for r in seen if r["ex"] == j and not r.get("refused")]
+                    if rj is None:
+                        fate = "no caller record"
+                    elif rj["done"]:
+                        fate = (f"its caller got status {rj['status']} (handler was to send {exchanges[j]['resp']['status']}) after "
+                                f"{rj['end_t'] - rj['start_t']:.1f} virtual s")
+                    elif rj["error"]:
+                        fate = f"its caller got {rj['error']} after {rj['end_t'] - rj['start_t']:.1f} virtual s"
+                    else:
+                        fate = "its caller is still waiting"
+                    fate += (f"; the handler saw it {len(hj)} time(s)"
+                             + (f" as (connection, method) {[(r['conn'], r['method']) for r in hj]}, sent method {exchanges[j]['req']['method'].upper()!r}" if hj else ""))
+                    poisoned(j)
+                    poison["incl"] = min(poison.get("incl", len(exchanges)), j)  # exchange j itself is already a victim
+                    reuse_after_refusal.add((sg["ex"], fr_))
+                    violate("expect_refused", f"next_request_written_after_unsent_body:{fr_}",
+                            f"exchange {sg['ex']} ({rq['method']} body={rq['body']['kind']} chunked={rq['chunked']!r} expect100=True) was "
+                            f"answered {results[sg['ex']]['status'] if sg['ex'] < len(results) else None} by the route's expect_handler "
+                            f"without '100 Continue'; the client had written the head (framing {fr_}, "
+                            f"{'Content-Length ' + declared if fr_ == 'content_length' else 'Transfer-Encoding chunked'}) and {nbody} body bytes, "
+                            f"did not close connection {sg['conn']} and wrote the head of exchange {j} to it, which the server "
+                            f"takes as the missing body; exchange {j}: {fate}")
             if "content-length" in hd and "transfer-encoding" not in hd and rq["compress"] is None and declared.isdigit() \
-                    and (nbody > int(declared) or (done and not any_fault_early() and last_seg[sg["ex"]] is sg and nbody != int(declared))):
+                    and (nbody > int(declared) or (done and not any_fault_early() and last_seg[sg["ex"]] is sg and nbody != int(declared)
+                                                   and not refused_sg)):
                 poisoned(sg["ex"])
                 violate("request_framing", f"content_length_vs_bytes_written:{ck}",
                         f"exchange {sg['ex']} ({rq['method']} body={rq['body']['kind']} chunked={rq['chunked']!r}): request head declares "
@@ -1184,12 +1418,21 @@ def run(scn, ch, log=False):
                     if b"#" in target:
                         violate("request_roundtrip", "fragment_sent", f"{tag}: fragment sent on the wire: {target!r}")
             got = hdr_groups(rec["headers"])
-            spec = hdr_groups([("X-Ex", str(i))] + [tuple(h) for h in rq["headers"]])
+            req_pairs, sess_pairs, spec = expected_request_fields(scn, i, rq)
             skip = {s.lower() for s in (rq["skip_auto"] or [])}
             for name, vals in spec.items():
                 if name == "cookie":
                     continue
                 if got.get(name) != vals:
+                    mcls = header_merge_class(name, req_pairs, sess_pairs)
+                    if mcls is not None:
+                        # one of the session-default / letter-case situations: its own class of failure
+                        violate("request_roundtrip", f"header_merge:{mcls}:{header_symptom(vals, got.get(name))}",
+                                f"{tag}: session defaults {_short(sess_pairs)} ({(scn.get('session_headers') or {}).get('form')}), "
+                                f"per-request headers {_short([p for p in req_pairs if p[0].lower() == name])} "
+                                f"({rq.get('headers_form') or 'list'}): field {name!r} must arrive as {_short(vals)} but the handler "
+                                f"saw {_short(got.get(name))}")
+                        continue
                     violate("request_roundtrip", "header_value:" + (name if name in AUTO_REQ else "custom"),
                             f"{tag}: header {name!r} sent {_short(vals)} but handler saw {_short(got.get(name))}")
             for name in got:
@@ -1241,7 +1484,7 @@ def run(scn, ch, log=False):
             if not scn["client"]["dummy_jar"]:
                 for j in range(i):
                     rj = results[j] if j < len(results) else None
-                    if rj is not None and rj["status"] is not None:
+                    if rj is not None and rj["status"] is not None and not is_refused(scn, exchanges[j]["req"]):
                         for name, val in exchanges[j]["resp"]["set_cookies"]:
                             exp_cookies.setdefault(name, val) if name in (rq["cookies"] or {}) else exp_cookies.__setitem__(name, val)
             if "cookie" not in spec:
@@ -1370,6 +1613,46 @@ def run(scn, ch, log=False):
             if cl is not None and not bodyless and not ce and cl != [str(len(exp))]:
                 violate("response_roundtrip", "content_length_vs_body", f"{tag}: Content-Length {cl!r}, body has {len(exp)} bytes")
 
+        # ------------------------------------------------------------------ round trip: a refused expectation
+        def check_refusal(res, recs):
+            """(a) of the refused-expectation rule: the caller sees exactly the final response the route's
+            expect_handler gave, and the route handler never ran for this request."""
+            i = res["i"]
+            rq = exchanges[i]["req"]
+            xr = rq["expect_refuse"]
+            tag = f"exchange {i} ({rq['method']} body={rq['body']['kind']} expect100 refused by {xr['how']} {xr['status']} close={xr['close']})"
+            if any(not r.get("refused") for r in recs):
+                violate("expect_refused", "route_handler_ran_after_refusal", f"{tag}: the route handler ran although the expect_handler "
+                        f"answered the request itself")
+            if res["status"] != xr["status"]:
+                violate("expect_refused", f"refusal_response:status:{res['status']}_for_{xr['status']}",
+                        f"{tag}: caller saw status {res['status']} {res.get('reason')!r}; body head {_short(res.get('body'))}")
+                return
+            if res["reason"] != reason_default(xr["status"]):
+                violate("expect_refused", "refusal_response:reason", f"{tag}: caller saw reason {res['reason']!r}")
+            if res["version"] != version_t:
+                violate("expect_refused", "refusal_response:version", f"{tag}: response version {res['version']}")
+            got = hdr_groups(res["headers"])
+            spec = {"x-refused": [str(i)]}
+            if xr["close"]:
+                spec["connection"] = ["close"]
+            for name, vals in spec.items():
+                if got.get(name) != vals:
+                    violate("expect_refused", "refusal_response:header_value:" + name,
+                            f"{tag}: header {name!r} set to {vals!r} but caller saw {_short(got.get(name))}")
+            _check_combined(violate, "expect_refused", tag, got, res["combined"])
+            for name in got:
+                if name not in spec and name not in AUTO_RESP:
+                    violate("expect_refused", "refusal_response:header_unexpected", f"{tag}: caller saw header {name!r}={_short(got[name])}")
+            if got.get("content-type") != ["text/plain; charset=utf-8"]:
+                violate("expect_refused", "refusal_response:content_type", f"{tag}: Content-Type {got.get('content-type')!r}")
+            if res["cookies"]:
+                violate("expect_refused", "refusal_response:cookies", f"{tag}: caller saw cookies {res['cookies']!r}")
+            exp = b"" if rq["method"].upper() == "HEAD" else refusal_body(i)
+            if res["body"] != exp:
+                violate("expect_refused", "refusal_response:body", f"{tag}: caller read {len(res['body'])} bytes, expected {len(exp)}; "
+                        f"{_diff(res['body'], exp)}")
+
         # ------------------------------------------------------------------ judge
         any_fault = fault_fired or any(c["killed"] for c in conns.values())
         timer_closed = {n for n, c in conns.items() if c["s_close"] and c["s_close"]["cause"] == "timer"}
@@ -1456,6 +1739,11 @@ def run(scn, ch, log=False):
             for msg_, cause_, rep_, ex_ in server_errors:
                 if ex_ is None or ex_ >= poison["from"]:
                     continue
+                if cause_.startswith("TransferEncodingError@") and any(f_ == "chunked" for _, f_ in reuse_after_refusal):
+                    # the server, discarding the chunked body it was announced (lingering), reads the next request's
+                    # head as a chunk size: the consequence of expect_refused/next_request_written_after_unsent_body
+                    # (last_ex is session-wide, so the exchange logged with it may be another connection's)
+                    continue
                 poisoned(ex_)
                 violate("server_exception", f"{cause_}", f"the server could only log an exception instead of answering: {msg_}: {rep_} (root {cause_})")
         f4_seen = False
@@ -1471,6 +1759,9 @@ def run(scn, ch, log=False):
                     ae = ", ".join(hdr_groups(recs[-1]["headers"]).get("accept-encoding", []))
                 if not recs and not any_fault:
                     violate("response_roundtrip", "response_without_handler", f"exchange {i}: caller got {res['status']} but no handler ran for it")
+                    continue
+                if is_refused(scn, rq):
+                    check_refusal(res, recs)
                     continue
                 check_response(res, ae)
             elif main_batch and not any_fault:
@@ -1515,7 +1806,8 @@ def run(scn, ch, log=False):
                     s_any_close = sc is not None and sc["cause"] != "peer" and last_on_conn
                     desc = (f"exchange {i} on connection {n}: {rq['method']} HTTP/{scn['version']} request Connection={req_conn!r}; "
                             f"response {rsp['status']} framing={rsp['framing']} Connection={resp_conn!r} "
-                            f"(handler: body={rs['body']['kind']} force_close={rs['force_close']} chunked={rs['chunked']})")
+                            + (f"(expect_handler refusal: {rq.get('expect_refuse')})" if hrec.get("refused") else
+                               f"(handler: body={rs['body']['kind']} force_close={rs['force_close']} chunked={rs['chunked']})"))
                     # R4: a close-delimited response is ended only by closing
                     if rsp["framing"] == "eof" and not s_decided_close:
                         f4_seen = True
@@ -1533,8 +1825,13 @@ def run(scn, ch, log=False):
                                 f"{desc}: the request asked for a persistent connection and the server decided to keep it "
                                 f"(response.keep_alive is True, no close of its own), but the response headers it sent tell the client the "
                                 f"connection is not persistent, so the client closed it")
+                    # A refused expectation leaves the request incomplete unless the client sends the body all the same:
+                    # the client may (must, if it leaves the body unsent) close, and the server may give up waiting for
+                    # the body (lingering close).  Neither is a disagreement; what is forbidden there is judged by
+                    # expect_refused/next_request_written_after_unsent_body and by R1.
+                    refused_here = bool(hrec.get("refused"))
                     # R3: server closes although its own headers promise persistence
-                    if s_decided_close and req_keep and resp_keep:
+                    if s_decided_close and req_keep and resp_keep and not refused_here:
                         violate("keepalive_agreement", "server_closes_after_promising_keepalive",
                                 f"{desc}: both header sets ask for a persistent connection but the server closed its transport "
                                 f"as part of finishing this response")
@@ -1546,7 +1843,7 @@ def run(scn, ch, log=False):
                                     f"{desc}: the server closed after this response (its decision), yet the client wrote "
                                     f"exchange {later[0][1]} to the same connection at step {later[0][0]}")
                     # R2: both sides chose keep-alive, nothing closed, yet the client abandons the connection
-                    if req_keep and resp_keep and not s_any_close and last_on_conn and not blocked:
+                    if req_keep and resp_keep and not s_any_close and last_on_conn and not blocked and not refused_here:
                         nxt = i + 1
                         cc = c["c_close"]
                         nxt_start = results[nxt]["start_seq"] if nxt < len(results) else None
@@ -1619,6 +1916,18 @@ def run(scn, ch, log=False):
             "expect100": sum(1 for r in seen if r["ex"] is not None and exchanges[r["ex"]]["req"]["expect100"]),
             "exec_jobs": loop.executor_jobs,
         }
+        n_refused = sum(1 for r in seen if r.get("refused"))
+        if n_refused:
+            probes["expect_refused"] = n_refused
+            probes["expect_refused_body_unsent"] = sum(1 for sg in all_segs if sg.get("refused_unsent"))
+            probes["expect_refused_conn_reused_unsent"] = sum(1 for sg in all_segs if sg.get("refused_unsent") and sg["next"] is not None)
+            probes["expect_refused_then_next_completed"] = sum(
+                1 for r in seen if r.get("refused") and r["ex"] + 1 < len(results) and results[r["ex"] + 1]["done"])
+        if scn.get("session_headers"):
+            probes["hdr_mix_session_defaults"] = 1
+            probes["hdr_mix_case_dups"] = sum(
+                1 for ex in exchanges if any(len({n_ for n_, _ in ex["req"]["headers"] if n_.lower() == low}) > 1
+                                             for low in {h[0].lower() for h in ex["req"]["headers"]}))
         for n, c in conns.items():
             sc = c["s_close"]
             if sc and sc["cause"] == "decision":
@@ -1642,7 +1951,9 @@ def run(scn, ch, log=False):
             "violations": viols, "nontrivial": bool(nontrivial), "sig": st["sig"], "digest": st["digest"],
             "steps": st["steps"], "vtime": st["vtime"], "faults": st["faults"],
             "probes": {k: v for k, v in probes.items() if v},
-            "shape": f"{scn['batch']}-v{scn['version']}-{len(exchanges)}ex-{scn['net']['pol_c2s'][0]}/{scn['net']['pol_s2c'][0]}",
+            "shape": f"{scn['batch']}-v{scn['version']}-{len(exchanges)}ex-{scn['net']['pol_c2s'][0]}/{scn['net']['pol_s2c'][0]}"
+                     + ("+refuse" if any(is_refused(scn, ex["req"]) for ex in exchanges) else "")
+                     + ("+hdrmix" if scn.get("session_headers") else ""),
         }
         if log:
             res["event_log"] = loop.event_log
@@ -1786,8 +2097,18 @@ def _check_combined(violate, inv, tag, groups, combined):
     comb = {}
     for k, v in combined:
         comb.setdefault(k.lower(), []).append(v)
+    spell = {}
+    for k, _ in combined:
+        spell.setdefault(k.lower(), []).append(k)
     for name, vals in groups.items():
         if comb.get(name) != [", ".join(vals)]:
+            if len(set(spell.get(name, []))) == len(spell.get(name, [])) > 1 and set(comb[name]) == {", ".join(vals)}:
+                # the right combined value, but listed once per spelling of the field name
+                violate(inv, "headers_mapping_view:one_entry_per_spelling_of_a_name",
+                        f"{tag}: the field lines of {name!r} arrived with the spellings {spell[name]!r}; iterating .headers yields "
+                        f"each spelling as a key of its own, every one mapped to the combined value {_short(comb[name][0])} "
+                        f"(len(.headers) counts them separately; dict(.headers)/.items() repeat the values)")
+                continue
             violate(inv, "headers_mapping_view", f"{tag}: .headers[{name!r}] is {_short(comb.get(name))} but the field lines are {_short(vals)}")
     for name in comb:
         if name not in groups:
